@@ -122,7 +122,7 @@ pub fn check(c: &(M, M), obs: &mut Obs) -> Result<(), String> {
 
 fn run(ctx: &mut Ctx) {
     let cases = ctx.share(ctx.tier.pick(300_000, 4_000_000));
-    let p = ctx.tier.pick(TreeParams::quick(), TreeParams::thorough());
+    let p = ctx.tier.pick(TreeParams::quick(), TreeParams::thorough()).with_big(2);
     let strat = (super::c04::arb_triple(p), any::<bool>()).prop_map(|((a, b, c), w)| if w { (a, b) } else { (b, c) });
     run_strategy(ctx, "C14", "pairs", cases, strat, check);
 }
